@@ -72,7 +72,8 @@ def inline_private_helpers(bodies, rounds=2):
 
 INLINE_ROOTS = (("engine::uci::Uci::execute", "engine::uci::"),
                 ("engine::search::negamax::negamax", "engine::search::negamax::"),
-                ("engine::search::quiescence::quiescence", "engine::search::quiescence::"))
+                ("engine::search::quiescence::quiescence", "engine::search::quiescence::"),
+                ("engine::search::time_control::TimeStrategy::new", "engine::search::time_control::"))
 
 
 def _inline_root(bodies, INLINE_ROOT, prefix, rounds):
